@@ -11,7 +11,7 @@ RULE = ("random over (array, label-map) pairs of 1-3 D x 8 int + bool + 2 float 
         "neighbourhoods x 6 border modes; every output is compared with the extracted Coq model and judged by the extracted "
         "Coq specification (region folds, bbox_spec, borders_spec, same_labeling_spec, count_eq) or by the definition "
         "evaluated directly (remove_bordering, centre of mass as exact integer quotients). Non-trivial: >=2 distinct labels present Added: center_of_mass on int32/uint32/int64/uint16 images with a few heavy pixels (up to the dtype maximum) 150-300 columns from the origin; remove_bordering with rsize 0 and per-axis tuples.")
-NOT_PROVED = ["labeled.bbox (per-label boxes) and center_of_mass: the executable model is compared with the executable Coq "
+NOT_PROVED = ["center_of_mass (labeled.bbox is now proved: bbox_labeled_is_spec): the executable model is compared with the executable Coq "
               "specification on every generated case, not proved equal for all inputs (is_same_labeling, the generic N-D bbox scan "
               "and the 2-D skip-ahead fast path ARE proved: is_same_labeling_correct, bbox_generic_is_spec, bbox_fast2_is_spec)",
               "remove_bordering / filter_labeled (pure numpy glue) are checked against the definition directly",
@@ -348,6 +348,9 @@ def run_case(ctx, case):
         gl = [[int(v) for v in row] for row in got]
         if got.shape != (n + 1, 2 * nd) or gl != spec:
             return Result(False, True, {"why": "labeled.bbox != per-label tight boxes", "spec": spec, "got": gl})
+        model = ctx.model.ints("bbox_labeled_model %s %d" % (enc_arr(l0.astype(np.int64)), n))
+        if gl != model:
+            return Result(False, True, {"why": "labeled.bbox != model of the one-pass scan", "model": model, "got": gl})
         return Result(True, n > 0, None, "lbbox/%dD" % nd)
     if kind == "hist":
         a0, _ = mkvals(case)
